@@ -1226,10 +1226,15 @@ where
         // or as a pixel data fragment (false)
         let mut first = true;
 
+        // whether the item being read has yielded its value already
+        // (items of length zero do not produce a value token)
+        let mut item_has_value = false;
+
         while let Some(token) = dataset.advance() {
             let token = token.context(ReadTokenSnafu)?;
             match token {
                 LazyDataToken::LazyItemValue { decoder, len } => {
+                    item_has_value = true;
                     if first {
                         let mut table = Vec::new();
                         decoder
@@ -1249,11 +1254,17 @@ where
                     // are seen as compressed fragments
                     if offset_table.is_none() {
                         offset_table = Some(Vec::new())
+                    } else if !item_has_value {
+                        // an item of length zero after the offset table
+                        // is an empty fragment, which must not be dropped
+                        fragments.push(Vec::new());
                     }
                     // (an empty first item yields no value token)
                     first = false;
                 }
-                LazyDataToken::ItemStart { len: _ } => { /* no-op */ }
+                LazyDataToken::ItemStart { len: _ } => {
+                    item_has_value = false;
+                }
                 LazyDataToken::SequenceEnd => {
                     // end of pixel data
                     break;
